@@ -5,7 +5,7 @@ STATIC = {
         "guard": "verif",
         "enable": "go build -tags verif (harness module /verif/harness with replace grol.io/grol => /repo)",
         "baseline_off_cmd": "cd /repo && GOFLAGS=-mod=mod GOPROXY=off go test -json -vet=off -count=1 -timeout 25m ./...",
-        "source_commits": ["ca5f1bc"],
+        "source_commits": ["ca5f1bc", "0dbeb05", "bf8cb9d", "5c94e8c"],
         "add_only": True,
     },
     "engines": [
@@ -16,21 +16,9 @@ STATIC = {
     "notes": "See DESIGN.md. fix: commits in /repo are listed in known_findings.json (status fixed).",
 }
 
-_TB = "Trusted: Lean kernel; axioms propext/Classical.choice/Quot.sound only; the hand-written model is tied to the code by the correspondence run (generator coverage printed in the evidence); harness canonicalisation. "
+_TB_UNUSED = "Trusted: Lean kernel; axioms propext/Classical.choice/Quot.sound only; the hand-written model is tied to the code by the correspondence run (generator coverage printed in the evidence); harness canonicalisation. "
 
-LEVELS = {
-    "C20": {
-        "text": "Kernel-checked theorems for every insertion sequence and every query (membership = inserted non-empty words; PrefixAll = exactly the inserted words with the prefix, strictly increasing in byte order, reported length = longest common prefix; completion extends the typed text to a prefix of an inserted word), about a Lean model of trie.go that is compared with the real trie on ~45k (quick) / ~1M (thorough) histories per run.",
-        "design_ref": "DESIGN.md section 7, C20",
-        "note": _TB + "Modelled: trie/trie.go, repl/completion.go callback result. Not modelled: which words the REPL inserts (object.record).",
-        "technique": "Lean 4 proof by structural induction (refinement of the trie to the set of inserted words) + differential correspondence run",
-    },
-    "C16": {
-        "text": "Kernel-checked theorems for every input byte string, every lexer state and both modes, about a Lean model of lexer.go/token.go: each NextToken result is either the mode's end marker (only on a NUL byte, at the end of the input, or where an unterminated string starts) or a token that starts on the first non-whitespace byte after the previous token, consumes at least one byte and ends inside the input (progress, tiling); operator, identifier, keyword, number and block-comment literals equal the spanned bytes; strings span quote..same quote, line comments // up to the next newline/NUL/end with literal = TrimSpace(span), block comments /*..*/ or /*..NUL/end; the end marker is reached within n+1 calls and is sticky; an IDENT is never spelled like a keyword; Intern returns the same pointer iff (type, literal) are equal. Partial: pointer uniqueness over mixed streams (constants + interned) is stated (InterningStatement) and proved for the Intern calls; string literal = unescape(content) is checked by the executable statement on every case, not proved. The model is compared with the real lexer on ~150k (quick) / ~5M (thorough) inputs per run including all strings of length <=3 / <=4 over a 39-byte alphabet in both modes.",
-        "design_ref": "DESIGN.md section 7, C16",
-        "note": _TB + "Modelled: lexer/lexer.go and token/token.go completely (tables hand-written, compared with token.Init at run time by the suite's T case). Three defects found by the suite were repaired by fix: commits (known_findings.json); the model follows the fixed code.",
-        "technique": "Lean 4 proofs by induction on loop fuel / case analysis of NextToken + exhaustive and random differential correspondence run with an independent executable statement",
-    },
-}
+import json as _json, os as _os
+LEVELS = _json.load(open(_os.path.join(_os.path.dirname(_os.path.abspath(__file__)), "levels.json")))
 
 NOT_APPLICABLE = {}
